@@ -659,7 +659,8 @@ def describe_assignment_target(
                 obj = stack.pop()
                 stack.append(f"{obj}.{insn.argval}")
             elif insn.opname == "LOAD_CONST":
-                stack.append(insn.argrepr)
+                # (the repr of Ellipsis is a name that can be rebound)
+                stack.append("..." if insn.argval is Ellipsis else insn.argrepr)
             elif insn.opname in ("BINARY_SUBSCR", "STORE_SUBSCR"):
                 index = stack.pop()
                 container = stack.pop()
